@@ -160,6 +160,22 @@ func c12d12bScenario(ctx *Ctx, fn string, os, ws []cty.Value) {
 			}
 			tag("sound_lookup_map_partial", k+":"+w0+",default:"+shape(ws[2]))
 		}
+	case "ZipmapFunc":
+		if len(ws) == 2 {
+			tag("sound_zipmap", "keys:"+w0+",values:"+shape(ws[1]))
+		}
+	case "ConcatFunc":
+		sc := "all-unchanged"
+		for _, w := range ws {
+			if !w.IsKnown() {
+				sc = "some-argument-unknown"
+				break
+			}
+			if !w.IsWhollyKnown() {
+				sc = "some-argument-partly-unknown"
+			}
+		}
+		tag("sound_concat_partial", sc)
 	case "SetProductFunc":
 		any := "all-lengths-known"
 		for _, w := range ws {
